@@ -114,6 +114,7 @@ class C07(Check):
         "painted {none, all}; plus every multiset of <=3 baits on the 5 tiny inputs of C01 (first sentence only). Oracle (1) no terminal gap, "
         "gapless neighbours only if gapless (or one contig) in input; (2) separator == input separator of the same facing ends or == join gap "
         "200/scaffold, join gap mandatory for non-neighbours. non-trivial = completed remap with at least one junction in the output"
+        " Added inputs: scaffolds that begin and / or end with a gap."
     )
     assumptions = ["PretextView model of DESIGN.md 3.2", "clause (2) evaluated on PretextView-model maps only, clause (1) on every completed remap"]
     shard_timeout = {"quick": 600, "thorough": 5400}
